@@ -84,6 +84,9 @@ REWRITES = {
     "string_clone_self_name_value": ("re", r"self\.name\.value\.clone\(\)", r"string_clone(&self.name.value)", "String::clone -> shim (`r@ == s@`)"),
     "call_argument_loop": ("loop_to_call", r"for\s*\(i,\s*\(arg,\s*param\)\)\s*in\s*std::iter::zip\(", "call_arguments_loop(&mut self.arguments, &proc_entry.parameters, &self.name, table);", "R6: the argument loop of CallStatement::analyze is replaced by a call whose contract is `the lifted loop body (verified as call_argument_rule) is applied to argument i and parameter i for every i below both lengths`"),
     "ranges_contain": ("re", r"local_declarations\.contains\(&token\.range\)", r"ranges_contain(&local_declarations, &token.range)", "Vec::contains (slice::contains) has no vstd spec -> shim with the std call"),
+    "box_as_mut": ("re", r"\bboxed\.as_mut\(\)", r"&mut **boxed", "Box::as_mut on &mut Box<T> replaced by its std body `&mut **self`"),
+    "ident_to_string": ("re", r"\b(creator|name)\.to_string\(\)", r"ident_to_string(\1)", "ToString via `impl Display for Identifier` (writes `self.value`) -> shim"),
+    "string_is_literal": ("re", r"(\b[\w\.]+)\s*==\s*(\"[^\"]*\")", r"string_is(&\1, \2)", "String == &str literal -> shim"),
     "drop_const_fn": ("re", r"\bconst fn\b", "fn", "const fn that calls non-const shim"),
 }
 
@@ -693,6 +696,8 @@ def emit_block(blk, rel, out_lines, meta):
             toks, fit = fn_in_text(text, fname)
             pos = toks[fit.body_open].start if fit.body_open is not None else toks[fit.last_tok].start
             ins.append((pos, payload, order))
+        elif d == "attr" and fname is None and r.kind in ("struct", "enum", "trait"):
+            ins.append((0, payload, order))
         elif d == "attr":
             toks, fit = fn_in_text(text, fname)
             ins.append((fit.start, payload, order))
